@@ -198,6 +198,12 @@ def cex_c10(obl, results, env):
 
 
 def cex_c06(obl, results, env):
+    if 'accept_loop' in obl['id']:
+        import validate
+        try:
+            return _first_fail(validate.hostile_streams(env))
+        except driver.Undecided:
+            return None
     if 'imeout' in obl['id']:
         return cex_c11(obl, results, env)
     return cex_c07(obl, results, env)
